@@ -142,7 +142,8 @@ def run_checks(tree, props):
 
 def round2(pid, keep):
     """/tmp/seed2/<pid>_out: bug1.diff bug2.diff benign1.diff benign2.diff demo1.py demo2.py notes.txt"""
-    outdir = '/verif/.r2/%s_out' % pid
+    rnd_ = os.environ.get('R', '2')
+    outdir = '/verif/.r%s/%s_out' % (rnd_, pid)
     only = 'benign' if '--benign-only' in sys.argv else ('bug' if '--bugs-only' in sys.argv else None)
     os.makedirs('/tmp/seedchk', exist_ok=True)
     clean = '/tmp/seedchk/%s_clean' % pid
@@ -151,7 +152,7 @@ def round2(pid, keep):
     props = claimed()
     notes = open(outdir + '/notes.txt').read() if os.path.exists(outdir + '/notes.txt') else ''
     try:
-        for kind, i in (('bug', 1), ('bug', 2), ('benign', 1), ('benign', 2)):
+        for kind, i in (('bug', 1), ('bug', 2), ('benign', 1), ('benign', 2), ('benign', 3)):
             d = '%s/%s%d.diff' % (outdir, kind, i)
             if only and kind != only:
                 continue
@@ -186,7 +187,7 @@ def round2(pid, keep):
                     for l in v[1][:1]:
                         print('          %s: %s' % (k, l[:260]))
                 if keep and conf:
-                    dst = '/verif/seeded/%s-r2-%s%d' % (pid, kind, i)
+                    dst = '/verif/seeded/%s-r%s-%s%d' % (pid, rnd_, kind, i)
                     os.makedirs(dst, exist_ok=True)
                     shutil.copy(d, dst + '/patch.diff')
                     for j in (1, 2):
@@ -194,10 +195,10 @@ def round2(pid, keep):
                         if os.path.exists(demo) and (kind == 'benign' or j == i):
                             shutil.copy(demo, dst + ('/demo.py' if kind == 'bug' else '/demo%d.py' % j))
                     meta = {
-                        'property': pid, 'seed_id': '%s-r2-%s%d' % (pid, kind, i),
+                        'property': pid, 'seed_id': '%s-r%s-%s%d' % (pid, rnd_, kind, i),
                         'kind': 'property-breaking change' if kind == 'bug' else
                                 'behaviour-preserving refactoring (must stay silent)',
-                        'origin': 'independent sub-agent (round 2) given only the property text and a scratch worktree',
+                        'origin': 'independent sub-agent (round %s) given only the property text and a scratch worktree' % rnd_,
                         'notes_from_author': notes,
                         'confirmed': {
                             'applies_to': subprocess.run(['git', '-C', '/repo', 'rev-parse', '--short', 'HEAD'],
